@@ -1546,3 +1546,54 @@ def inline_new_temps(rel: str, tree: ast.Module) -> int:
     if total:
         ast.fix_missing_locations(tree)
     return total
+
+
+# ------------------------------------------------------------------------------------------------------------------
+# N10: lazy pipelines in one spelling: filter/map calls and single-loop generator functions -> generator expressions
+#
+# ``filter(f, it)`` is ``(x for x in it if f(x))``, ``map(f, it)`` is ``(f(x) for x in it)``, and a function whose whole
+# body is ``for T in IT: [if C:] yield E`` returns the same iterator as ``return (E for T in IT [if C])``.
+
+
+class _LazyPipelines(ast.NodeTransformer):
+    def __init__(self):
+        self.changed = 0
+        self.n = 0
+
+    def visit_Call(self, node):
+        self.generic_visit(node)
+        if isinstance(node.func, ast.Name) and node.func.id in ("filter", "map") and len(node.args) == 2 and not node.keywords and _pure_arg(node.args[0]) and not (isinstance(node.args[0], ast.Constant)):
+            self.n += 1
+            var = f"item__n{self.n}"
+            call = ast.Call(func=node.args[0], args=[ast.Name(var, ast.Load())], keywords=[])
+            gen = ast.comprehension(target=ast.Name(var, ast.Store()), iter=node.args[1], ifs=[call] if node.func.id == "filter" else [], is_async=0)
+            elt = ast.Name(var, ast.Load()) if node.func.id == "filter" else call
+            self.changed += 1
+            return ast.copy_location(ast.GeneratorExp(elt=elt, generators=[gen]), node)
+        return node
+
+    def visit_FunctionDef(self, node):
+        self.generic_visit(node)
+        body = _body(node)
+        if len(body) == 1 and isinstance(body[0], ast.For) and not body[0].orelse:
+            loop = body[0]
+            inner = loop.body
+            conds = []
+            if len(inner) == 1 and isinstance(inner[0], ast.If) and not inner[0].orelse:
+                conds = [inner[0].test]
+                inner = inner[0].body
+            if len(inner) == 1 and isinstance(inner[0], ast.Expr) and isinstance(inner[0].value, ast.Yield) and inner[0].value.value is not None:
+                yields = [n for n in ast.walk(node) if isinstance(n, (ast.Yield, ast.YieldFrom))]
+                if len(yields) == 1:
+                    gen = ast.GeneratorExp(elt=inner[0].value.value, generators=[ast.comprehension(target=loop.target, iter=loop.iter, ifs=conds, is_async=0)])
+                    ret = ast.copy_location(ast.Return(value=gen), loop)
+                    node.body = node.body[: len(node.body) - 1] + [ret]
+                    self.changed += 1
+        return node
+
+
+def lazy_pipelines(tree: ast.Module) -> int:
+    t = _LazyPipelines()
+    t.visit(tree)
+    ast.fix_missing_locations(tree)
+    return t.changed
